@@ -54,6 +54,29 @@ def run(ck: Checker, prog: Program, tier: str):
         ck.guard(_kernel, ck, prog, k)
     ck.guard(_sg, ck, prog)
     ck.guard(_registry, ck, prog)
+    ck.guard(_purity, ck, prog)
+
+
+def _purity(ck: Checker, prog: Program):
+    """A smoothing operator is a function of its four arguments: it writes neither module-level state (no remembered
+    coefficients / windows) nor the arrays it is given."""
+    from .common import engine, group_effects, describe_effect, chain_text
+    eng = engine(prog)
+    reg = prog.registry("smoothing", "SMOOTHING_OPERATORS")
+    n = 0
+    for key, v in reg.items():
+        if not isinstance(v, ast.Name):
+            continue
+        f = prog.func(f"smoothing.{v.id}")
+        s = eng.summary(f)
+        bad = [e for e in s.effects if e.origin[0] in ("G", "P")]
+        n += 1
+        if not bad:
+            ck.ok("C02.R6", f.qualname, "no state outside the result is written", nontrivial=False)
+        for (func, text), es in group_effects(prog, bad).items():
+            ck.violation("C02.R6", func, text, f"{f.qualname} {describe_effect(es[0])}: the operator keeps state between calls / alters its input "
+                         f"(the result of a call would depend on earlier calls)", loc=es[0].chain[0].loc, path=chain_text(es[0]))
+    ck.floor("C02.R6", n, 7, "smoothing operators checked for purity")
 
 
 def _single_loop(stmts, what, q):
